@@ -313,12 +313,14 @@ theorem spec2_filterMap (hi : E .index) (hbud : E .budget) (cfg : CheckCfg) (c :
 
 /-! ### the extended fragment -/
 
-/-- the constructs that need a hypothesis on the world: calls of environment functions, `matches`, method calls -/
+/-- the constructs that need a hypothesis on the world: calls of environment functions, `matches` (with a
+literal pattern that `okPat` admits), method calls -/
 structure FragOpts where
   calls : Bool := false
   regex : Bool := false
   methods : Bool := false
-  deriving DecidableEq
+  /-- the literal patterns admitted under `matches`: the hypothesis `RegexOn` says they compile -/
+  okPat : String → Bool := fun _ => false
 
 
 mutual
@@ -345,7 +347,7 @@ def inFrag2 (fo : FragOpts) : Node → Bool
   | .prop _ x _ _ => inFrag2 fo x
   | .map _ ps => inFrag2P fo ps
   | .method _ x _ args _ => fo.methods && inFrag2 fo x && inFrag2L fo args
-  | .matches _ _ l r => fo.regex && inFrag2 fo l && inFrag2 fo r
+  | .matches _ true l (.str _ pat) => fo.regex && fo.okPat pat && inFrag2 fo l
   | _ => false
 def inFrag2L (fo : FragOpts) : List Node → Bool
   | [] => true
@@ -578,7 +580,7 @@ mutual
 /-- **Soundness on the extended fragment**, by recursion over the tree. -/
 theorem frag2_sound (hd : E .divzero) (hi : E .index) (hbud : E .budget) (cfg : CheckCfg) (c : SCfg)
     (henv : EnvConforms2 cfg c.env) (hdn : cfg.dn = NDefects.asIs) (fo : FragOpts) (hw : fo.calls = true → WorldConforms E cfg c)
-    (hre : fo.regex = true → RegexTotal c) (hm : fo.methods = true → MethodsConform E cfg c) :
+    (hre : fo.regex = true → RegexOn c fo.okPat) (hm : fo.methods = true → MethodsConform E cfg c) :
     ∀ (n : Node) (cs : List OTy), inFrag2 fo n = true → typed2 cfg cs n = true → Spec2 E cfg c cs n
   | .bool m b, cs, _, _ =>
     frag_to_spec2 (frag_sound hd cfg cs c (envConforms_of2 henv) (.bool m b) rfl rfl)
@@ -842,18 +844,20 @@ theorem frag2_sound (hd : E .divzero) (hi : E .index) (hbud : E .budget) (cfg : 
         simp only [fetchV]
         trivial
   | .matches m hasRe l r, cs, hf, ht => by
-    simp only [inFrag2, Bool.and_eq_true] at hf
-    simp only [typed2, Bool.and_eq_true] at ht
-    obtain ⟨⟨⟨h1, h2⟩, h3⟩, h4⟩ := ht
-    refine spec2_matches cfg c (hre hf.1.1) cs m hasRe l r
-      (frag2_sound hd hi hbud cfg c henv hdn fo hw hre hm l cs hf.1.2 h3)
-      (frag2_sound hd hi hbud cfg c henv hdn fo hw hre hm r cs hf.2 h4) ?_ ?_
-    · intro t h
-      rw [h] at h1
-      simpa [strOK] using h1
-    · intro t h
-      rw [h] at h2
-      simpa [strOK] using h2
+    cases hasRe with
+    | false => simp [inFrag2] at hf
+    | true =>
+      cases r with
+      | str mr pat =>
+        simp only [inFrag2, Bool.and_eq_true] at hf
+        simp only [typed2, Bool.and_eq_true] at ht
+        obtain ⟨⟨⟨h1, _⟩, h3⟩, _⟩ := ht
+        refine spec2_matches_lit cfg c cs m mr pat l (fun subj => hre hf.1.1 pat subj hf.1.2)
+          (frag2_sound hd hi hbud cfg c henv hdn fo hw hre hm l cs hf.2 h3) ?_
+        intro t h
+        rw [h] at h1
+        simpa [strOK] using h1
+      | _ => simp [inFrag2] at hf
   | .method m x name args ns, cs, hf, ht => by
     simp only [inFrag2, Bool.and_eq_true] at hf
     simp only [typed2, Bool.and_eq_true] at ht
@@ -896,7 +900,7 @@ theorem frag2_sound (hd : E .divzero) (hi : E .index) (hbud : E .budget) (cfg : 
 
 theorem frag2_elems (hd : E .divzero) (hi : E .index) (hbud : E .budget) (cfg : CheckCfg) (c : SCfg)
     (henv : EnvConforms2 cfg c.env) (hdn : cfg.dn = NDefects.asIs) (fo : FragOpts) (hw : fo.calls = true → WorldConforms E cfg c)
-    (hre : fo.regex = true → RegexTotal c) (hm : fo.methods = true → MethodsConform E cfg c) :
+    (hre : fo.regex = true → RegexOn c fo.okPat) (hm : fo.methods = true → MethodsConform E cfg c) :
     ∀ (xs : List Node) (cs : List OTy), inFrag2L fo xs = true → typed2L cfg cs xs = true →
       ElemsOK E cfg c cs xs
   | [], _, _, _ => trivial
@@ -909,7 +913,7 @@ theorem frag2_elems (hd : E .divzero) (hi : E .index) (hbud : E .budget) (cfg : 
 
 theorem frag2_pairs (hd : E .divzero) (hi : E .index) (hbud : E .budget) (cfg : CheckCfg) (c : SCfg)
     (henv : EnvConforms2 cfg c.env) (hdn : cfg.dn = NDefects.asIs) (fo : FragOpts) (hw : fo.calls = true → WorldConforms E cfg c)
-    (hre : fo.regex = true → RegexTotal c) (hm : fo.methods = true → MethodsConform E cfg c) :
+    (hre : fo.regex = true → RegexOn c fo.okPat) (hm : fo.methods = true → MethodsConform E cfg c) :
     ∀ (ps : List Node) (cs : List OTy), inFrag2P fo ps = true → typed2P cfg cs ps = true →
       PairsOK E cfg c cs ps
   | [], _, _, _ => trivial
@@ -933,7 +937,7 @@ theorem frag2_pairs (hd : E .divzero) (hi : E .index) (hbud : E .budget) (cfg : 
 
 theorem frag2_args (hd : E .divzero) (hi : E .index) (hbud : E .budget) (cfg : CheckCfg) (c : SCfg)
     (henv : EnvConforms2 cfg c.env) (hdn : cfg.dn = NDefects.asIs) (fo : FragOpts) (hw : fo.calls = true → WorldConforms E cfg c)
-    (hre : fo.regex = true → RegexTotal c) (hm : fo.methods = true → MethodsConform E cfg c) :
+    (hre : fo.regex = true → RegexOn c fo.okPat) (hm : fo.methods = true → MethodsConform E cfg c) :
     ∀ (args : List Node) (cs : List OTy) (ins : List Ty) (variadic : Bool) (numIn offset i : Nat),
       inFrag2L fo args = true → typed2A cfg cs ins variadic numIn offset i args = true →
       ArgsOK E cfg c cs ins variadic numIn offset i args
